@@ -176,6 +176,7 @@ extern "C" void h_asm()
   const unsigned op = table_msp430[ROW].opcode;
 
 #ifdef TWOPASS
+  ctx->optimize = nondet_int() & 1;         /* with and without -optimize */
   /* pass 1: each expression operand is either resolved to its value or unresolved (forward reference) */
   int sok = nondet_int() & 1, dok = nondet_int() & 1;
   int sv1 = sv, dv1 = dv;
